@@ -27,6 +27,13 @@ pub enum Op {
     Walk(String),
     /// set_creation_time / set_modification_time / set_access_time (field 0 / 1 / 2) to a fixed value
     SetTime(String, u8),
+    /// session steps (applied by the tree space, which keeps the handle with the live system):
+    /// open a write handle with create_file (false) / append_file (true) and keep it open
+    OpenWrite(String, bool),
+    /// write to the kept handle and flush it, keeping it open
+    FlushWrite,
+    /// write to the kept handle and drop it
+    CloseWrite,
 }
 
 /// Observable value returned by a successful call (everything a caller can see).
@@ -98,7 +105,14 @@ impl Op {
             Op::SetTime(_, 0) => "set_creation_time",
             Op::SetTime(_, 1) => "set_modification_time",
             Op::SetTime(..) => "set_access_time",
+            Op::OpenWrite(_, false) => "open:create_file",
+            Op::OpenWrite(_, true) => "open:append_file",
+            Op::FlushWrite => "handle:write+flush",
+            Op::CloseWrite => "handle:write+drop",
         }
+    }
+    pub fn is_session(&self) -> bool {
+        matches!(self, Op::OpenWrite(..) | Op::FlushWrite | Op::CloseWrite)
     }
     pub fn is_setter(&self) -> bool {
         matches!(self, Op::SetTime(..))
@@ -143,7 +157,9 @@ impl Op {
             | Op::ReadAll(p)
             | Op::ReadToString(p)
             | Op::SetTime(p, _)
+            | Op::OpenWrite(p, _)
             | Op::Walk(p) => p,
+            Op::FlushWrite | Op::CloseWrite => "",
         }
     }
     pub fn dest(&self) -> Option<&str> {
@@ -175,6 +191,9 @@ impl Op {
             Op::ReadToString(p) => Op::ReadToString(f(p)),
             Op::Walk(p) => Op::Walk(f(p)),
             Op::SetTime(p, k) => Op::SetTime(f(p), *k),
+            Op::OpenWrite(p, a) => Op::OpenWrite(f(p), *a),
+            Op::FlushWrite => Op::FlushWrite,
+            Op::CloseWrite => Op::CloseWrite,
         }
     }
     pub fn show(&self) -> String {
@@ -231,6 +250,10 @@ impl Op {
             "set_creation_time" => Op::SetTime(p, 0),
             "set_modification_time" => Op::SetTime(p, 1),
             "set_access_time" => Op::SetTime(p, 2),
+            "open:create_file" => Op::OpenWrite(p, false),
+            "open:append_file" => Op::OpenWrite(p, true),
+            "handle:write+flush" => Op::FlushWrite,
+            "handle:write+drop" => Op::CloseWrite,
             _ => return None,
         })
     }
@@ -292,6 +315,7 @@ fn apply_inner<P: PathApi>(root: &P, op: &Op) -> R<Val> {
             };
             p.set_time(f, t).map(|_| Val::Unit)?
         }
+        Op::OpenWrite(..) | Op::FlushWrite | Op::CloseWrite => panic!("session steps are applied by the tree space"),
     })
 }
 
@@ -382,6 +406,8 @@ pub struct Alphabet {
     pub composites: bool,
     pub observers: bool,
     pub setters: bool,
+    /// write handles kept open across other calls (OpenWrite / FlushWrite / CloseWrite)
+    pub sessions: bool,
 }
 
 impl Alphabet {
@@ -419,6 +445,14 @@ impl Alphabet {
                     v.push(Op::SetTime(p.clone(), k));
                 }
             }
+        }
+        if self.sessions {
+            for p in &self.universe.paths {
+                v.push(Op::OpenWrite(p.clone(), false));
+                v.push(Op::OpenWrite(p.clone(), true));
+            }
+            v.push(Op::FlushWrite);
+            v.push(Op::CloseWrite);
         }
         if self.observers {
             for p in &ps {
